@@ -289,6 +289,32 @@ func (c *callEngine) callWithStack(ctx context.Context, paramResultStack []uint6
 		} else {
 			if err != wasmruntime.ErrRuntimeStackOverflow { // Stackoverflow case shouldn't be panic (to avoid extreme stack unwinding).
 				err = c.parent.module.FailIfClosed()
+			} else {
+				// The functions on the stack will not return: their listeners need Abort like for any other failure. The stack
+				// is unwound from the caller of the stack-growing trampoline, which is called on the entry of a function before
+				// the call of its listener, and on the entry of the trampolines of host functions and listeners.
+				builder := wasmdebug.NewErrorBuilder()
+				returnAddrs := unwindStack(
+					uintptr(unsafe.Pointer(c.execCtx.stackPointerBeforeGoCall)),
+					c.execCtx.framePointerBeforeGoCall,
+					c.stackTop,
+					nil,
+				)
+				returnAddrs = returnAddrs[:len(returnAddrs)-1] // the last return addr is the trampoline, so we skip it.
+				if len(returnAddrs) > 0 {
+					// The first one is the function or the trampoline which was being entered, before its Before.
+					inBefore := c.parent.parent.parent.isListenerBeforeTrampoline(returnAddrs[0])
+					returnAddrs = returnAddrs[1:]
+					if inBefore && len(returnAddrs) > 0 {
+						// The stack was exhausted on the way to the Before of the function which called that trampoline.
+						returnAddrs = returnAddrs[1:]
+					}
+				}
+				for _, retAddr := range returnAddrs {
+					if def, lsn := c.addFrame(builder, retAddr); lsn != nil {
+						lsn.Abort(ctx, m, def, err)
+					}
+				}
 			}
 		}
 
